@@ -238,6 +238,9 @@ def run_job(job, rec):
         else:
             cost = 10.0 ** rng.uniform(1.5, 2.78)
             budget = cost * 10.0 ** rng.uniform(1.0, 3.0)
+        zero_budget = bool(rng.random() < 0.1)
+        if zero_budget:
+            budget = 0.0        # no time at all: a timed run with nothing to spend takes no step
         clock = VirtualClock()
         tgt = CostedTarget(clock, cost, d)
         ch = mc.make_sampler(kind, tgt, np.zeros(d) + 0.1, rng, grad=tgt.grad, display_progress=bool(rng.random() < 0.2), seed=int(rng.integers(2**31)))
@@ -294,6 +297,11 @@ def run_job(job, rec):
         got = guarded(lengths, ch, kind)
         rec.check((not isinstance(got, Raised)) and got[0] == got[1] == got[2], "wrong-number-of-samples",
                   lambda: f"{kind}: after run_for chain_length / samples / log-probabilities = {got}", tctx)
+        if zero_budget:
+            rec.count("run_for:zero_budget")
+            rec.check(steps == 0 and calls == 0, "timed-run-overshoots",
+                      lambda: f"{kind}: run_for with no time budget ({kw}) took {steps} steps ({calls} posterior evaluations)", tctx)
+            continue
         rec.check(steps >= 1 and elapsed >= run_time, "timed-run-stopped-early",
                   lambda: f"{kind}: run_for returned after {elapsed:.6g} s of a {run_time:.6g} s budget ({steps} steps of ~{step_cost:.3g} s)", tctx)
         # it keeps stepping: (almost) all of the elapsed time was spent inside steps
